@@ -44,7 +44,42 @@ def run(ctx):
     from . import c03
     ctx.step(c03.reader_rules, ctx, "C14.reader")
     ctx.step(c03.deleter_rules, ctx, "C14.release")
+    ctx.step(read_then_write, ctx)
     ctx.step(common.raii_token_moves, ctx, "C14.balance", ["lr_guarded.hpp", "cow_guarded.hpp", "rcu_list.hpp", "rcu_guarded.hpp"])
+
+
+def read_then_write(ctx, rid="C14.read-then-write"):
+    """a writer of an lr_guarded waits until the readers registered on it have left.  An operation that starts a
+    modification (modify(), or taking m_writeMutex) while it holds a read handle of ANOTHER lr_guarded of the same kind
+    makes that reader depend on a writer: two such operations in opposite directions (a = b while b = a) wait for each
+    other's handle for ever - readers are then held up by writers, and writers by readers that never leave."""
+    ctx.rule(rid, "no operation of lr_guarded / cow_guarded starts a modification while it holds a read handle", floor=0)
+    for cls in (LR, COW):
+        for f in ctx.fb.functions(rec=cls):
+            if f.kind in ("dtor",):
+                continue
+            handles = []
+            for st in f.stmts.values():
+                if st["k"] == "DeclStmt":
+                    for d in st["decls"]:
+                        t = d.get("type", "")
+                        if not d.get("ref") and ("shared_deleter" in t or t.endswith("::shared_handle")) and f.pos_of(st):
+                            handles.append((st, d))
+            if not handles:
+                continue
+            for c in f.stmts.values():
+                starts = (c["k"] == "CXXMemberCallExpr" and (c.get("callee") or {}).get("name") in ("modify", "lock") and
+                          (c.get("callee") or {}).get("rec") in (LR, COW) and path(f, f.s(c.get("obj"))) in ("this", "*this", "this.m_data"))
+                if not starts or f.pos_of(c) is None:
+                    continue
+                anc = {a["id"] for a in f.ancestors(c)}
+                for st, d in handles:
+                    par = f.par(st)
+                    alive = par is not None and par["id"] in anc and f.dominates(tuple(f.pos_of(st)), tuple(f.pos_of(c)))
+                    ctx.ob(rid, not alive, f.loc(c), "%s starts its modification without holding a read handle" % f.name,
+                           "" if not alive else "the read handle '%s' (taken at %s) is still alive when the writer side is entered: "
+                           "the same operation running in the opposite direction on another thread waits for this handle while "
+                           "this one waits for that thread's" % (d["name"], f.loc(st)), fn=f.label, inst=f.qname)
 
 
 def entries(ctx):
